@@ -397,6 +397,12 @@ def c14_cases(tier, rng):
             conf["sps"] = [0x67] + [(37 * i + 11) % 256 for i in range(spsn - 1)]
             conf["pps"] = [(91 * i + 5) % 256 for i in range(ppsn)]
             cases.append(cfg_case(n, [conf], rng)); n += 1
+    # parameter sets are opaque bytes: sets that happen to begin like an Annex B start code, or with zeros
+    for sps in ([0, 0, 0, 1, 0x67, 100, 0, 31, 0xAC], [0, 0, 1, 0x67, 100, 0, 31], [0, 0, 0, 0, 0, 0, 0, 1], [0x67, 0, 0, 0, 1, 9]):
+        for pps in ([0, 0, 0, 1, 0x68, 0xEE], [0, 0, 1], [0x68, 0xEE, 0x3C, 0x80]):
+            conf = full_conf("avc", 600, rng)
+            conf["sps"], conf["pps"] = sps, pps
+            cases.append(cfg_case(n, [conf], rng)); n += 1
     for brands in ([], ["isom"], ["isom", "iso2"], ["isom", "iso2", "avc1"], ["\x00\x00\x00\x00", "zzzz", "mp41", "dash"]):
         for minor in (0, 512, 0xFFFFFFFF):
             for mts in (1, 1000, 90000, 0xFFFFFFFF):
@@ -449,6 +455,12 @@ def c17_cases(tier, rng):
             c["sps"] = [0x67, 100, 0, 31, 0xAC, 0xD9][:sl]
             c["pps"] = [0x68, 0xEB, 0xE3, 0xCB][:pl]
             add([c], [w(1), w(1, ln=0)])
+    # short parameter sets that begin like an Annex B start code
+    for sps in ([0, 0, 0, 1], [0, 0, 0, 1, 0x67], [0, 0, 0, 1, 0x67, 100], [0, 0, 0, 1, 0x67, 100, 0], [0, 0, 0, 1, 0x67, 100, 0, 31], [0, 0, 1], [0, 0, 1, 0x67]):
+        for pps in ([0, 0, 0, 1], [0x68]):
+            c = full_conf("avc", 1000, rng)
+            c["sps"], c["pps"] = sps, pps
+            add([c], [w(1)])
     # languages: empty, short, long, non-letters, non-ASCII
     # ... and every alignment of 1-, 2-, 3- and 4-byte characters (1 or 2 UTF-16 units) with the
     # byte / character / UTF-16 positions 0..3 that a three-letter code is cut from
@@ -828,6 +840,14 @@ def c15(prop, tier, replay):
             dmg = bytearray(b)
             dmg[i + 12:i + 20] = (len(b) - 1).to_bytes(8, "big")
             files.append({"file": list(dmg), "expect_ok": True, "tri": True})
+    # a movie header that says duration 0 while its tracks have (different) durations: the movie-level
+    # accessors keep answering from the movie header, the same on every reader instance
+    for c in [c for c in lk if c["place"] == "inter" and c["n"] == 3][:1]:
+        b = bytearray(c["file"])
+        i = bytes(b).find(b"mvhd")
+        if i > 0:
+            b[i + 20:i + 24] = b"\0\0\0\0"
+            files.append({"file": list(b), "expect_ok": True})
     # a media segment opened against a reader that has samples (and answered queries) itself
     for c in [c for c in fr if c["delivery"] == "split" and c["base"] == "moof" and c["nfrag"] == 2][:2]:
         whole = c["init"] + c["file"]
@@ -858,6 +878,7 @@ def c15(prop, tier, replay):
         rng.shuffle(order)
         for g in range(0, len(order), group):
             calls = [resolve(c, counts[fi]) for i in order[g:g + group] for c in scheds[i]]
+            calls = [{"op": "movie"}] + calls + [{"op": "movie"}]
             cases.append(dict(f, id="sch-%d-%d" % (fi, g // group), prop="C15", calls=calls))
         for r in range(6 if tier == "quick" else 60):
             calls = []
